@@ -21,7 +21,6 @@ from .C01 import _founders, _is, UTIL, CORE
 
 PROPERTY = "C02"
 ASSUMPTIONS = [
-    "kernel law: the two copies of an individual carry different allele codes at every marker (provenance tracking; the kernels only copy codes)",
     "generator contract: draws are independent and uniform on [0,1) (the real bit generator is outside the claim)",
     "crossover probabilities are reals in [0,1]",
     "transcendental functions: exp is an uninterpreted function with positivity, exp(0)=1, monotonicity and the product law instantiated on the applied arguments",
@@ -95,9 +94,6 @@ class KernelLaw:
             x = mk.real("x", (m,), lo=0, hi=1)
             rng = mk.rng()
             self._mk = mk
-            # provenance tracking: the two copies of an individual carry different allele codes at every marker (without loss of generality:
-            # the kernels only copy codes), so "which copy does this gamete cell come from" has a unique answer and is visible in replays
-            c.assume(z3.And(*[cell(A, 0, i_, j_).e != cell(A, 1, i_, j_).e for i_ in range(n) for j_ in range(m)]))
             sel = numpy.arange(k) % n
             npc0 = len(c.pc)
             if self.fn == "mate":
@@ -128,11 +124,12 @@ class KernelLaw:
                     cl = cell(out, i, j) if side is None else cell(out, side, i, j)
                     src = [h for h in (0, 1) if _is(cl, cell(A, h, s, j))]
                     if not src and isinstance(cl, SV):
-                        # a merged (if-then-else) cell, as a vectorised implementation produces: split the path on which copy it equals
-                        for h in (0, 1):
-                            if c.branch((cl == cell(A, h, s, j)).e):
-                                src = [h]
-                                break
+                        # a merged (if-then-else) cell, as a vectorised implementation produces: split the path on the merge conditions until a
+                        # plain allele constant remains (no assumption on allele values: homozygous loci stay reachable)
+                        e = cl.e
+                        while z3.is_app_of(e, z3.Z3_OP_ITE):
+                            e = e.arg(1) if c.branch(e.arg(0)) else e.arg(2)
+                        src = [h for h in (0, 1) if e.eq(cell(A, h, s, j).e)]
                     c.prove(len(src) == 1, "gamete-cell-is-a-copy-of-the-selected-individual")
                     h = src[0]
                     ind = int(h != prev)
